@@ -169,6 +169,29 @@ func spec_depth(s string, i int) int {
 //@   requires u != nil
 //@   note heapfree: the loaded universe is ASSUMED immutable while generators run (u.pkgs is written only by Load)
 
+// Spec_isLocal / Spec_isDirect: membership and value of the universe's local-package table.
+func Spec_isLocal(u *Universe, q string) bool  { return spec_has(u.localPkgPaths, q) }
+func Spec_isDirect(u *Universe, q string) bool { return u.localPkgPaths[q] }
+
+// spec_flags(m, keys, n): the values of m at the first n keys.
+func spec_flags(m map[string]bool, keys []string, n int) []bool {
+	if n <= 0 {
+		return nil
+	}
+	return append(spec_flags(m, keys, n-1), m[keys[n-1]])
+}
+
+//@ func Universe.LocalPkgPaths
+//@   props C04 C07
+//@   pure
+//@   requires v != nil
+//@   lit 1 yields spec_sortedKeys(old(v.localPkgPaths))
+//@   lit 1 ensures forall j int :: 0 <= j && j < len(out2) && j < len(out) ==> out2[j] == old(v.localPkgPaths)[out[j]]
+//@   loop 1 invariant !stopped && eq(out, xs1[:it1]) && len(out2) == len(out)
+//@   loop 1 invariant forall j int :: 0 <= j && j < len(out2) ==> out2[j] == old(v.localPkgPaths)[out[j]]
+//@   lit 1 stable v.localPkgPaths
+//@   note local packages are visited in ascending path order, each with its `direct` flag: a function of the map's contents (C04)
+
 //@ func Universe.SumFile
 //@   props C08
 //@   pure
